@@ -16,10 +16,15 @@ def showF (x : Float) : String :=
 def handle (ws : List String) : Option String :=
   match ws with
   | name :: args => do
-      let (_, n, f) ← M3d.Gen.Kernels.kernelTable.find? (fun e => e.1 == name)
       let xs ← parseFloats args
-      if xs.length ≠ n then none
-      else some (showList showF (f xs.toArray))
+      match M3d.Gen.Kernels.kernelTable.find? (fun e => e.1 == name) with
+      | some (_, n, f) =>
+        if xs.length ≠ n then none
+        else some (showList showF (f xs.toArray))
+      | none =>
+        -- variable-shape entry: slices as length + elements, ints / bools as floats
+        let (_, f) ← M3d.Gen.Kernels.kernelTableV.find? (fun e => e.1 == name)
+        some (showList showF (f xs.toArray))
   | _ => none
 
 end M3d.Drv.Kernels
